@@ -83,14 +83,14 @@ def run(tier):
     if res:
         chk.add_tlc(res, "Mibs.tla")
     entries = [t for t in table if "mib" in t]
-    if len(entries) < 890:
+    if len(entries) < 2000:
         raise ToolError("MIB table incomplete")
     std = scripts.std_cfgs()
     rec = trace.Recorder("c05")
     runs = []
     idx = list(enumerate(entries))
     # async v2c: everything; other combinations sampled (quick) or complete (thorough)
-    runs += asyncio.run(run_async(rec, std["v2c"], idx, thorough))
+    runs += asyncio.run(run_async(rec, std["v2c"], idx if thorough else [x for x in idx if (x[0] + SEED) % 2 == 0], thorough))
     samp = lambda n, off: [x for x in idx if thorough or (x[0] + off + SEED) % n == 0]
     runs += run_sync(rec, std["v2c"], samp(6, 0), thorough)
     runs += run_sync(rec, std["v1"], samp(12, 1), thorough)
@@ -121,6 +121,7 @@ def run(tier):
                                                                                   len(info["entry"]["mib"]), ev["ev"], ev.get("exc") or json.dumps(ev.get("res"))[:100]),
                       dict(info=info, events=rec.events[a:idxf + 1][-12:]))
     chk.sample(dict(kind="mib-base", entry=entries[500]))
+    chk.extra["mib_base_pairs"] = len(entries)
     chk.sample(dict(kind="events", events=[{k: (x if k not in ("wire", "dgram", "interp", "mib") else "...") for k, x in e.items()} for e in rec.events[runs[300][0]:runs[300][0] + 8]]))
     return chk.finish()
 
